@@ -531,23 +531,68 @@ Section ParseRequest.
 
   Definition enc_cls (mt : string) : pyval := PObj [("__class__", PStr "type"); ("msgtype", PStr mt)].
 
-  (* the values handed to Request.loads as must= and only_valid_cert= *)
-  Definition ovc_py (c : config cert) : pyval :=
-    match only_valid_cert c with Some v => PBool v | None => PBool false end.
-  Definition must_py (c : config cert) : pyval :=
-    if truthy (only_valid_cert c) then PBool true else enc_obool (want_signed c).
+  (* what Config.getattr answers for an option: a configuration value (Model.cval; an option that was never stored
+     and a stored None both read None) *)
+  Definition enc_cval (v : cval) : pyval :=
+    match v with
+    | CAbsent | CNone => PNone
+    | CBool b => PBool b
+    | CInt z => PInt z
+    | CStr s => PStr s
+    end.
 
-  Lemma truthy_must_py c : py_truthy (must_py c) = truthy (want_signed c) || truthy (only_valid_cert c).
-  Proof. unfold must_py. destruct (only_valid_cert c) as [[|]|], (want_signed c) as [[|]|]; reflexivity. Qed.
-  Lemma truthy_ovc_py c : py_truthy (ovc_py c) = truthy (only_valid_cert c).
-  Proof. unfold ovc_py. destruct (only_valid_cert c) as [[|]|]; reflexivity. Qed.
+  Lemma enc_cval_good v : is_bad (enc_cval v) = false.
+  Proof. destruct v; reflexivity. Qed.
+
+  (* the translator's str.strip() / str.lower() refuse a text with a non-ASCII byte (Unicode whitespace and case
+     mapping are not modelled) *)
+  Definition ascii_text (v : cval) : Prop :=
+    match v with CStr s => end_ascii (strip s) = true /\ all_ascii (strip s) = true | _ => True end.
+
+  (* the values handed to Request.loads as only_valid_cert= and must= (9e47ced6: a text is read by what it says) *)
+  Definition ovc_py (O : cval) : pyval :=
+    match O with
+    | CStr s => PBool (mem (lower (strip s)) OVC_YES)
+    | CAbsent | CNone => PBool false
+    | _ => enc_cval O
+    end.
+  Definition must_py (W O : cval) : pyval := if py_truthy (ovc_py O) then PBool true else enc_cval W.
+
+  Lemma ovc_py_good O : is_bad (ovc_py O) = false.
+  Proof. destruct O; reflexivity. Qed.
+
+  (* for the values Config.load_special stores, they are true exactly when the model's are *)
+  Lemma truthy_ovc_py v : py_truthy (ovc_py (load_special_val v)) = truthy (stored_ovc v).
+  Proof.
+    unfold stored_ovc. destruct (load_special_val v) as [| |b|z|s]; cbn [ovc_py enc_cval py_truthy truthy py_true]; try reflexivity.
+    - destruct b; reflexivity.
+    - destruct (negb (z =? 0)%Z); reflexivity.
+    - destruct (mem (lower (strip s)) OVC_YES); reflexivity.
+  Qed.
+  Lemma truthy_must_py w v :
+    py_truthy (must_py (load_special_val w) (load_special_val v)) = truthy (stored w) || truthy (stored_ovc v).
+  Proof.
+    unfold must_py. rewrite truthy_ovc_py. destruct (truthy (stored_ovc v)); [rewrite orb_true_r; reflexivity|].
+    rewrite orb_false_r. unfold stored. destruct (load_special_val w) as [| |b|z|s]; cbn [enc_cval py_truthy truthy py_true]; try reflexivity.
+    - destruct b; reflexivity.
+    - destruct (negb (z =? 0)%Z); reflexivity.
+    - destruct (negb (is_empty s)); reflexivity.
+  Qed.
+
+  Lemma p2_in_ovc_yes x :
+    p2_in (PStr x) (p2_mklist [PStr "true"; PStr "yes"; PStr "on"; PStr "1"]) = PBool (mem x OVC_YES).
+  Proof.
+    cbn. destruct (String.eqb x "true"); [reflexivity|]. destruct (String.eqb x "yes"); [reflexivity|].
+    destruct (String.eqb x "on"); [reflexivity|]. destruct (String.eqb x "1"); reflexivity.
+  Qed.
 
   Theorem src2_parse_request_is_model :
-    forall (c : config cert) (svc mt : string) (bnd : option string) (enc rs sa sg : pyval) (u : string + string),
+    forall (c : config cert) (W O : cval) (svc mt : string) (bnd : option string) (enc rs sa sg : pyval) (u : string + string),
     is_bad enc = false -> is_bad rs = false -> is_bad sa = false -> is_bad sg = false ->
     (forall typ, endpoint_py (PStr svc) (enc_ostr bnd) (PStr typ) = PList (map PStr (endpoint (eps c typ svc) bnd))) ->
-    cfg_getattr (PStr "want_authn_requests_signed") (PStr "idp") = enc_obool (want_signed c) ->
-    cfg_getattr (PStr "want_authn_requests_only_with_valid_cert") (PStr "idp") = enc_obool (only_valid_cert c) ->
+    cfg_getattr (PStr "want_authn_requests_signed") (PStr "idp") = enc_cval W ->
+    cfg_getattr (PStr "want_authn_requests_only_with_valid_cert") (PStr "idp") = enc_cval O ->
+    ascii_text O ->
     unravel_py enc (enc_ostr bnd) (PStr mt) = match u with inl n => PExc n | inr xml => PStr xml end ->
     (forall a s k, is_bad (mk_request a s k) = false) ->
     (forall r kw, loads_py r kw <> PErr) ->
@@ -558,7 +603,7 @@ Section ParseRequest.
       | inl n => PExc n
       | inr xml =>
           let L := loads_py (mk_request (PList (map PStr (receiver_addrs c svc bnd))) (PInt (slack c)) (enc_cls mt))
-                     [("xmlstr", PStr xml); ("binding", enc_ostr bnd); ("must", must_py c); ("only_valid_cert", ovc_py c);
+                     [("xmlstr", PStr xml); ("binding", enc_ostr bnd); ("must", must_py W O); ("only_valid_cert", ovc_py O);
                       ("origdoc", enc); ("relay_state", rs); ("sigalg", sa); ("signature", sg)] in
           match L with
           | PExc n => PExc n
@@ -566,7 +611,7 @@ Section ParseRequest.
           end
       end.
   Proof.
-    intros c svc mt bnd enc rs sa sg u Henc Hrs Hsa Hsg Hep Hws Hovc HU HR HL HV.
+    intros c W O svc mt bnd enc rs sa sg u Henc Hrs Hsa Hsg Hep Hws Hovc Hasc HU HR HL HV.
     cbv delta [src2_parse_request]. cbv beta.
     do 7 (lazymatch goal with |- (let k := ?F in @?M k) = ?R => change (M F = R); cbv beta end).
     change (p2_attr_x (enc_entity c) "entity_type") with (PStr (etype c)).
@@ -590,7 +635,7 @@ Section ParseRequest.
         | inl n => PExc n
         | inr xml =>
             let L := loads_py (mk_request (PList (map PStr l)) (PInt (slack c)) (enc_cls mt))
-                       [("xmlstr", PStr xml); ("binding", B); ("must", must_py c); ("only_valid_cert", ovc_py c);
+                       [("xmlstr", PStr xml); ("binding", B); ("must", must_py W O); ("only_valid_cert", ovc_py O);
                         ("origdoc", enc); ("relay_state", rs); ("sigalg", sa); ("signature", sg)] in
             match L with
             | PExc n => PExc n
@@ -606,7 +651,7 @@ Section ParseRequest.
           | inl n => PExc n
           | inr xml =>
               let L := loads_py (mk_request (PList (map PStr l)) (PInt z) (enc_cls mt))
-                         [("xmlstr", PStr xml); ("binding", B); ("must", must_py c); ("only_valid_cert", ovc_py c);
+                         [("xmlstr", PStr xml); ("binding", B); ("must", must_py W O); ("only_valid_cert", ovc_py O);
                           ("origdoc", enc); ("relay_state", rs); ("sigalg", sa); ("signature", sg)] in
               match L with
               | PExc n => PExc n
@@ -625,27 +670,40 @@ Section ParseRequest.
         rewrite HU. destruct u as [n|xml]; [reflexivity|].
         rewrite (py_bind_good (PStr xml)) by reflexivity. cbv beta.
         rewrite Hws, Hovc.
-        rewrite (py_bind_good (enc_obool (want_signed c))) by (destruct (want_signed c) as [[|]|]; reflexivity). cbv beta.
-        rewrite (py_bind_good (enc_obool (only_valid_cert c))) by (destruct (only_valid_cert c) as [[|]|]; reflexivity).
-        cbv beta.
-        name_let K27.
-        (* ---- everything after only_valid_cert has its default *)
-        assert (HK27 : forall t : bool,
-          K27 (PBool t)
-          = let L := loads_py (mk_request (PList (map PStr l)) (PInt z) (enc_cls mt))
+        rewrite (py_bind_good (enc_cval W)) by apply enc_cval_good. cbv beta.
+        rewrite (py_bind_good (enc_cval O)) by apply enc_cval_good. cbv beta.
+        name_let K29.
+        (* ---- everything after a text value of only_valid_cert has been read *)
+        assert (HK29 : forall v, is_bad v = false ->
+          K29 v
+          = let d := match v with PNone => PBool false | _ => v end in
+            let L := loads_py (mk_request (PList (map PStr l)) (PInt z) (enc_cls mt))
                        [("xmlstr", PStr xml); ("binding", B);
-                        ("must", if t then PBool true else enc_obool (want_signed c)); ("only_valid_cert", PBool t);
+                        ("must", if py_truthy d then PBool true else enc_cval W); ("only_valid_cert", d);
                         ("origdoc", enc); ("relay_state", rs); ("sigalg", sa); ("signature", sg)] in
             match L with
             | PExc n => PExc n
             | _ => if py_truthy L then (if py_truthy (verify_py L) then L else PNone) else PNone
             end).
-        { intros t. cbv delta [K27]. cbv beta. clear K27.
+        { intros v0 Hv0. cbv delta [K29]. cbv beta. clear K29.
+        name_let K27.
+        (* ---- everything after only_valid_cert has its default *)
+        assert (HK27 : forall t, is_bad t = false ->
+          K27 t
+          = let L := loads_py (mk_request (PList (map PStr l)) (PInt z) (enc_cls mt))
+                       [("xmlstr", PStr xml); ("binding", B);
+                        ("must", if py_truthy t then PBool true else enc_cval W); ("only_valid_cert", t);
+                        ("origdoc", enc); ("relay_state", rs); ("sigalg", sa); ("signature", sg)] in
+            match L with
+            | PExc n => PExc n
+            | _ => if py_truthy L then (if py_truthy (verify_py L) then L else PNone) else PNone
+            end).
+        { intros t Ht. cbv delta [K27]. cbv beta. clear K27.
           name_let K25.
           assert (HK25 : forall m, is_bad m = false ->
             K25 m
             = let L := loads_py (mk_request (PList (map PStr l)) (PInt z) (enc_cls mt))
-                         [("xmlstr", PStr xml); ("binding", B); ("must", m); ("only_valid_cert", PBool t);
+                         [("xmlstr", PStr xml); ("binding", B); ("must", m); ("only_valid_cert", t);
                           ("origdoc", enc); ("relay_state", rs); ("sigalg", sa); ("signature", sg)] in
               match L with
               | PExc n => PExc n
@@ -656,13 +714,13 @@ Section ParseRequest.
             rewrite (py_bind_good B _ Eb). cbv beta.
             rewrite (py_bind_good enc _ Henc). cbv beta.
             rewrite (py_bind_good m _ Hm). cbv beta.
-            rewrite (py_bind_good (PBool t)) by reflexivity. cbv beta.
+            rewrite (py_bind_good t _ Ht). cbv beta.
             rewrite (py_bind_good rs _ Hrs). cbv beta.
             rewrite (py_bind_good sa _ Hsa). cbv beta.
             rewrite (py_bind_good sg _ Hsg). cbv beta.
             cbv zeta.
             pose proof (HL (mk_request (PList (map PStr l)) (PInt z) (enc_cls mt))
-                          [("xmlstr", PStr xml); ("binding", B); ("must", m); ("only_valid_cert", PBool t);
+                          [("xmlstr", PStr xml); ("binding", B); ("must", m); ("only_valid_cert", t);
                            ("origdoc", enc); ("relay_state", rs); ("sigalg", sa); ("signature", sg)]) as HnE.
             set (L := loads_py _ _) in *.
             pose proof (HV L) as HVL.
@@ -693,12 +751,23 @@ Section ParseRequest.
                   [rewrite p2_not_good by reflexivity; rewrite Et; reflexivity|reflexivity]
                  |rewrite p2_not_good by reflexivity; rewrite Et; reflexivity]). }
             cbv beta. exact (Hgen L verify_py HnE HVL). }
-          destruct t; cbn [p2_branch py_truthy].
+          rewrite (p2_branch_good t Ht). destruct (py_truthy t).
           - rewrite HK25 by reflexivity. reflexivity.
-          - rewrite HK25 by (destruct (want_signed c) as [[|]|]; reflexivity). reflexivity. }
-        destruct (only_valid_cert c) as [t|] eqn:Eo; cbn [enc_obool p2_is_none s1 py_bind p2_branch py_truthy].
-        - rewrite HK27. unfold must_py, ovc_py. rewrite Eo. destruct t; reflexivity.
-        - rewrite HK27. unfold must_py, ovc_py. rewrite Eo. reflexivity. }
+          - rewrite HK25 by apply enc_cval_good. reflexivity. }
+        destruct v0; try discriminate Hv0; cbn [p2_is_none s1 py_bind p2_branch py_truthy];
+          rewrite HK27 by reflexivity; reflexivity. }
+        (* ---- a text value is read by what it says *)
+        destruct O as [| |ob|oz|os].
+        - change (p2_branch (p2_isinstance (enc_cval CAbsent) ["str"] [])) with BFalse. rewrite HK29 by reflexivity. reflexivity.
+        - change (p2_branch (p2_isinstance (enc_cval CNone) ["str"] [])) with BFalse. rewrite HK29 by reflexivity. reflexivity.
+        - change (p2_branch (p2_isinstance (enc_cval (CBool ob)) ["str"] [])) with BFalse. rewrite HK29 by reflexivity. reflexivity.
+        - change (p2_branch (p2_isinstance (enc_cval (CInt oz)) ["str"] [])) with BFalse. rewrite HK29 by reflexivity. reflexivity.
+        - change (p2_branch (p2_isinstance (enc_cval (CStr os)) ["str"] [])) with BTrue.
+          destruct Hasc as [He Ha].
+          change (p2_strip (enc_cval (CStr os))) with (guard_ends (strip os)). unfold guard_ends. rewrite He.
+          change (p2_lower (PStr (strip os))) with (if all_ascii (strip os) then PStr (lower (strip os)) else PErr). rewrite Ha.
+          rewrite p2_in_ovc_yes. rewrite (py_bind_good (PBool _)) by reflexivity. cbv beta.
+          rewrite HK29 by reflexivity. reflexivity. }
       unfold slack. destruct (time_diff c) as [z|].
       - destruct z; cbn [enc_oz py_bindh p2_bind p2_not s1 py_bind py_truthy negb p2_branch Z.eqb];
           rewrite HK31; reflexivity.
@@ -734,7 +803,7 @@ Example parse_request_hyps_sat :
                                    end in
   let ga := fun n _ : pyval => match n with
                                | PStr "want_authn_requests_signed" => PNone
-                               | _ => PBool true
+                               | _ => PStr " Yes "
                                end in
   let ur := fun _ _ _ : pyval => PStr "<x/>" in
   let mk := fun a s _ : pyval => PObj [("__class__", PStr "Request"); ("receiver_addrs", a); ("timeslack", s)] in
@@ -742,8 +811,9 @@ Example parse_request_hyps_sat :
   let vf := fun _ : pyval => PBool true in
   (forall typ, ep (PStr "authn_query_service") (enc_ostr (Some BINDING_SOAP)) (PStr typ)
                = PList (map PStr (endpoint (eps c typ "authn_query_service") (Some BINDING_SOAP))))
-  /\ ga (PStr "want_authn_requests_signed") (PStr "idp") = enc_obool (want_signed c)
-  /\ ga (PStr "want_authn_requests_only_with_valid_cert") (PStr "idp") = enc_obool (only_valid_cert c)
+  /\ ga (PStr "want_authn_requests_signed") (PStr "idp") = enc_cval CNone
+  /\ ga (PStr "want_authn_requests_only_with_valid_cert") (PStr "idp") = enc_cval (CStr " Yes ")
+  /\ ascii_text (CStr " Yes ")
   /\ (forall a s k, is_bad (mk a s k) = false) /\ (forall r kw, ld r kw <> PErr) /\ (forall r, is_bad (vf r) = false)
   /\ src2_parse_request ep ga ur mk ld vf (enc_entity nat c) (PStr "e") (enc_cls "authn_query") (PStr "authn_query_service")
        (PStr BINDING_SOAP) PNone PNone PNone
@@ -751,6 +821,6 @@ Example parse_request_hyps_sat :
           [("xmlstr", PStr "<x/>"); ("binding", PStr BINDING_SOAP); ("must", PBool true); ("only_valid_cert", PBool true);
            ("origdoc", PStr "e"); ("relay_state", PNone); ("sigalg", PNone); ("signature", PNone)].
 Proof.
-  cbv zeta. split; [reflexivity|]. split; [reflexivity|]. split; [reflexivity|]. split; [reflexivity|].
+  cbv zeta. split; [reflexivity|]. split; [reflexivity|]. split; [reflexivity|]. split; [split; reflexivity|]. split; [reflexivity|].
   split; [discriminate|]. split; [reflexivity|vm_compute; reflexivity].
 Qed.
